@@ -312,7 +312,8 @@ def execute(plan, ctx):
     sched = Scheduler(ctx, s['seed'], policy=s['policy'], batch_size=s['batch'], straggler=s['straggler'])
     try:
         with sched:
-            outs['sim'] = evaluate_models_searchlight(sl_ok, models, tag_eval, method=em, n_jobs=s['n_jobs'])
+            r_ = evaluate_models_searchlight(sl_ok, models, tag_eval, method=em, n_jobs=s['n_jobs'])
+            outs['sim'] = r_ if isinstance(r_, list) else list(r_)      # a lazily returned result is consumed under the scheduler
     except Stall as e:
         ctx.violation('sl_ref.progress', 'evaluate_models_searchlight:stall', f'evaluate_models_searchlight did not return: {e}')
         return
